@@ -431,6 +431,51 @@ fn run_product(rep: &mut Report, mode: Mode, tier: Tier) {
         rep.bounds["C-all"] = json!({"characters": n, "rule": "every character U+0000..U+00FF + 10 wider representatives, as array item, object key and nested, under the presets and every single-field deviation with width thresholds straddling the printed widths"});
         rep.absorb(t);
     }
+    // pumped linear families: long strings / keys / numbers, long arrays, many (distinct or
+    // duplicated) keys, with width thresholds around the (large) actual widths
+    {
+        let all = refmodel::pump::all(tier == Tier::Thorough);
+        let n = all.len();
+        let t = explore::par_tally(all, |(fam, k, rv), t| {
+            if budget.expired() {
+                t.outcome("value-skipped:time-cap");
+                return;
+            }
+            let real = bridge::to_value(&rv);
+            let wrapped = RV::Arr(vec![RV::Obj(vec![("w".to_string(), rv.clone())]), RV::Null]);
+            let real_wrapped = bridge::to_value(&wrapped);
+            for (_, base) in presets() {
+                if k <= 300 {
+                    for_each_deviation(&rv, &base, 1, &mut |o| check_case(mode, &rv, &real, o, t));
+                } else {
+                    // big instances: the preset and its limit variants only
+                    check_case(mode, &rv, &real, &base, t);
+                    for l in limit_candidates(&rv, &base) {
+                        let mut o = base.clone();
+                        o.array_limit = l;
+                        o.object_limit = l;
+                        check_case(mode, &rv, &real, &o, t);
+                    }
+                }
+                check_case(mode, &wrapped, &real_wrapped, &base, t);
+                for w in [254usize, 255, 256, 257, 65534, 65535, 65536, 65537] {
+                    let mut o = base.clone();
+                    o.array_limit = Some(Limit::Width(w));
+                    o.object_limit = Some(Limit::ItemOrWidth(w, w));
+                    check_case(mode, &wrapped, &real_wrapped, &o, t);
+                }
+            }
+            t.nontrivial(&(format!("{fam:?}"), k));
+            t.states += 1;
+            t.outcome(&format!("pumped:{fam:?}"));
+        });
+        if let Some(sk) = t.hist.get("value-skipped:time-cap") {
+            rep.exhaustive = false;
+            rep.note(format!("pumped families: time cap reached, {sk} of {n} values not covered"));
+        }
+        rep.bounds["pumped-families"] = json!({"values": n, "thresholds": "0..=40 and 2^k +- 1 up to 4 097 (quick) / 65 537 (thorough)", "extra_width_limits": [254, 255, 256, 257, 65534, 65535, 65536, 65537]});
+        rep.absorb(t);
+    }
     // thorough: the full {0,1}^12 grid x 3 indents x limits on F-shape size <= 4
     if tier == Tier::Thorough && !budget.expired() {
         let values = f_shape(4);
@@ -576,6 +621,13 @@ fn run_c08(rep: &mut Report, tier: Tier) {
     });
     rep.absorb(t);
     rep.bounds["S-all"] = json!({"strings": ns, "max_length": tier.pick(5, 6), "classes": CLASSES.len()});
+    let all = refmodel::pump::all(tier == Tier::Thorough);
+    let t = explore::par_tally(all, |(fam, k, rv), t| {
+        c08_value(&rv, t);
+        t.nontrivial(&(format!("{fam:?}"), k));
+        t.outcome("pumped value");
+    });
+    rep.absorb(t);
     let vals: Vec<RV> = f_shape(tier.pick(4, 5)).into_iter().chain(f_leaf(tier.pick(2, 3))).collect();
     let n = vals.len();
     let t = explore::par_tally(vals.into_iter().enumerate().collect(), |(i, rv): (usize, RV), t| {
